@@ -599,3 +599,29 @@ def r9(cx):
             else:
                 cx.violation(ck, "none-only-after-all-segments", "%s: `no sequence found` (or an answer of unknown shape) is returned before every segment has been examined: acknowledged entries in an older "
                              "segment are ignored and numbering restarts at or below them - recovery then sees duplicate or regressing sequence numbers" % b.sp(bi, si), [b.sp(bi, si)])
+
+
+@rule("C05", "R10", "writer and reader of the flushed-mark file agree on ONE format: persist_flushed_seq writes the eight little-endian bytes of the sequence number and nothing else; "
+      "load_flushed_seq obtains its value from u64::from_le_bytes only, under a length test for exactly 8 (a second, length-ambiguous encoding - e.g. decimal text, which is 8 "
+      "bytes long for eight-digit marks - is misread as the other one and recovery skips every unflushed entry)")
+def r10(cx):
+    wk, wb = cx.need_body(W + "persist_flushed_seq")
+    rk, rb = cx.need_body(W + "load_flushed_seq")
+    if wb is None or rb is None:
+        return
+    ws = M.find_calls(wb, lambda c: c in ("std::fs::write", "std::io::Write::write_all") or c.endswith("fs::write"))
+    if cx.floor("writes in persist_flushed_seq", len(ws), 1, wk):
+        for w in ws:
+            o = M.operand_origins(wb, wb.term(w)["args"][1], at=(w, M.T), stop_at=lambda t: bool(BYTES_RX.search(t["callee"])))
+            enc = sorted({x[1][1] for x in o if x[0] == "call"})
+            if enc and all(re.search(r"<impl u64>::to_le_bytes$", e) for e in enc):
+                cx.passed(wk, "mark-file-writer-le-u64", [wb.sp(w)])
+            else:
+                cx.violation(wk, "mark-file-writer-le-u64", "%s: the flushed mark is not written as u64::to_le_bytes (it goes through %s): the reader's 8-byte little-endian arm misreads any other "
+                             "encoding that happens to be 8 bytes long" % (wb.sp(w), enc or "no integer encoding"), [wb.sp(w)])
+    decs = sorted({t["callee"] for _, t in rb.calls() if BYTES_RX.search(t["callee"]) or re.search(r"::parse$|FromStr::from_str$|from_str_radix$|from_utf8", t["callee"])})
+    if decs and all(re.search(r"<impl u64>::from_le_bytes$", d) for d in decs):
+        cx.passed(rk, "mark-file-reader-le-u64-only", [rb.j["span"]], decs)
+    else:
+        cx.violation(rk, "mark-file-reader-le-u64-only", "%s: load_flushed_seq decodes the mark through %s: with more than one accepted encoding the length test no longer identifies the format" % (
+            rb.j["span"], decs or "nothing recognisable"), [rb.j["span"]])
